@@ -37,11 +37,11 @@ def BOUNDS(tier):
 
 
 def N1(tier):
-    return range(1, 13) if tier == "quick" else range(1, 34)
+    return range(1, 13) if tier == "quick" else range(1, 131)
 
 
 def N2(tier):
-    return range(1, 8) if tier == "quick" else range(1, 13)
+    return range(1, 8) if tier == "quick" else range(1, 25)
 
 
 def cases(tier):
@@ -61,7 +61,8 @@ def cases(tier):
         # size classes beyond the exhaustive range (FFT back ends switch algorithm with size and with large prime
         # factors): full 1-D operators, and for 2-D the transforms of all unit impulses in three rows
         for N in ((64, 65, 129, 130, 257) if tier == "quick" else (64, 65, 129, 130, 257, 521, 1024, 1025)):
-            yield Case("1d:N=%d:d=0.5:%s" % (N, path), {"kind": "1d", "N": N, "delta": 0.5, "path": path})
+            if N not in N1(tier):
+                yield Case("1d:N=%d:d=0.5:%s" % (N, path), {"kind": "1d", "N": N, "delta": 0.5, "path": path})
         for N in ((33, 64, 130) if tier == "quick" else (33, 64, 65, 130, 257)):
             yield Case("2dbig:N=%d:%s" % (N, path), {"kind": "2dbig", "N": N, "delta": 0.5, "path": path})
         for N in ((32, 33) if tier == "quick" else (32, 33, 64, 65, 127, 128)):
